@@ -281,15 +281,17 @@ def _load(t: ast.expr) -> ast.expr:
 def find_function(tree: ast.Module, cls: typing.Optional[str], name: str) -> ast.FunctionDef:
     body = tree.body
     if cls is not None:
-        for n in body:
-            if isinstance(n, ast.ClassDef) and n.name == cls:
-                body = n.body
-                break
-        else:
-            raise Unsupported('class %s not found' % cls)
-    for n in body:
-        if isinstance(n, ast.FunctionDef) and n.name == name:
-            return n
+        classes = [n for n in body if isinstance(n, ast.ClassDef) and n.name == cls]
+        if len(classes) != 1:
+            raise Unsupported('class %s found %d times' % (cls, len(classes)))
+        body = classes[0].body
+    hits = [n for n in body if isinstance(n, (ast.FunctionDef, ast.AsyncFunctionDef, ast.ClassDef)) and n.name == name]
+    rebound = [n for n in body if isinstance(n, (ast.Assign, ast.AnnAssign, ast.AugAssign, ast.Delete))
+               and any(isinstance(x, ast.Name) and x.id == name for t in (getattr(n, 'targets', None) or [n.target]) for x in ast.walk(t))]
+    if len(hits) > 1 or rebound:   # Python binds the LAST definition / the re-bound value: translating the first would describe dead code
+        raise Unsupported('%s is defined %d times / re-bound %d times in one scope' % (name, len(hits), len(rebound)))
+    if hits and isinstance(hits[0], ast.FunctionDef):
+        return hits[0]
     raise Unsupported('function %s not found' % name)
 
 
